@@ -9,7 +9,7 @@ TRUSTED = {
     'A3': 'A3 allocation bound: a str/String has at most isize::MAX bytes, a Vec at most isize::MAX elements',
     'A4': 'A4 documented std behaviour of the transparent wrappers (vx_* functions whose body is the std call: slicing, find, trim_end_matches, split, '
           'repeat, Cow operations, mem::take, ...), vstd\'s own assume_specifications and vstd::utf8; in U9 also two axioms about std functions that are otherwise abstract there: '
-          'str::lines(s) is lines_c(s) (the \'\\n\'-separated pieces, a terminated piece without one \'\\r\' before its \'\\n\', the unterminated last piece as it is — carriage return included — and dropped when empty) — checked literally on the real str::lines within scope by the bounded contract A4.std_models — and char::is_whitespace(\'\\r\') (cr_is_ws)',
+          'str::lines(s) is lines_c(s) (the \'\\n\'-separated pieces, a terminated piece without one \'\\r\' before its \'\\n\', the unterminated last piece as it is — carriage return included — and dropped when empty) — checked literally on the real str::lines within scope by the bounded contract A4.std_models — and char::is_whitespace(\'\\r\') (cr_is_ws; discharged on the real std function by the loop-free Kani harness K5)',
     'A5': 'A5 Fragment accessors are pure (each accessor returns its ghost twin)',
     'A6': 'A6 (discharged as far as shape and safety go) smawk::online_column_minima(init, n, f) calls f(m, i, j) only with i < j < n, i < m.len() and a well-shaped table m, never panics, '
           'terminates, and returns a back-pointer table of length n with m[0].0 == 0 and m[k].0 < k: PROVED in unit U24 on the source of the smawk version Cargo.lock pins (read from the '
@@ -71,7 +71,10 @@ K2 = {'name': 'K2.first_fit_n3', 'file': 'k2_first_fit.rs', 'inject': 'src/wrap_
 K3 = {'name': 'K3.f64_exact', 'file': 'k3_f64_exact.rs', 'inject': 'src/core.rs', 'features': 'default', 'quick': True, 'timeout': 1200,
       'harnesses': [{'name': 'k3_f64_small_int_add'}, {'name': 'k3_f64_conv_monotone'}, {'name': 'k3_f64_zero_and_target'}, {'name': 'k3_probe_must_fail'}],
       'scope': 'complete: loop-free harnesses over the full domain of `usize` (bit-precise IEEE-754 binary64 in CBMC)'}
-KANI = {'K1.default': K1, 'K1.no-default-features': K1MIN, 'K2.first_fit_n3': K2, 'K3.f64_exact': K3}
+K5 = {'name': 'K5.whitespace', 'file': 'k5_whitespace.rs', 'inject': 'src/indentation.rs', 'features': 'default', 'quick': True, 'timeout': 600,
+      'harnesses': [{'name': 'k5_cr_is_whitespace'}, {'name': 'k5_probe_must_fail'}],
+      'scope': 'complete: loop-free harness on concrete characters (the real char::is_whitespace)'}
+KANI = {'K1.default': K1, 'K1.no-default-features': K1MIN, 'K2.first_fit_n3': K2, 'K3.f64_exact': K3, 'K5.whitespace': K5}
 
 PROPS = {
     'C01': {
@@ -283,7 +286,7 @@ PROPS = {
         'explanation': 'Mixed: fill_inplace has a complete functional contract relative to its two callees; agreement with wrap is relational and bounded.',
     },
     'C18': {
-        'units': ['U9', 'U8'], 'level': 'proof', 'trusted': ['A3', 'A4', 'A9', 'A12'],
+        'units': ['U9', 'U8'], 'level': 'proof', 'kani': [K5], 'trusted': ['A3', 'A4', 'A9', 'A12'],
         'proved_part': 'Verus, all inputs (U9): there is a margin length mlen such that, when some line has text, a string m of that length is the LONGEST string of '
                        'whitespace characters that is a prefix of every line containing a non-whitespace character (is_margin: common, and no longer common one exists); the '
                        'result is every line with text without its first mlen characters, every whitespace-only line empty, one output line per input line (each '
@@ -351,7 +354,7 @@ UNIT_TRUSTED = {
     'U22': ['A3', 'A4', 'A12', 'R15'],
     'U23': ['A3', 'A7', 'A12', 'R17'],
     'U24': ['A3', 'A4', 'A6', 'A12', 'R18', 'R19'],
-    'K1': ['A2'], 'K2': ['A1'], 'K3': ['A16'],
+    'K1': ['A2'], 'K2': ['A1'], 'K3': ['A16'], 'K5': ['A4'],
 }
 _U22 = (' The options reach the library through `impl From<&Options>` / `From<usize>` and the setters: the by-reference conversion copies every option '
         'unchanged (so f(text, &options) is f(text, options)), the width conversion is Options::new(width), and each setter changes exactly its field (U22).')
